@@ -4,6 +4,7 @@ model was written against.  A failing obligation here means the code moved away 
 -/
 import GoZero.Extracted.C15
 import GoZero.C15.Proofs2
+import GoZero.C15.ReprProofs
 namespace GoZero.C15.Tie
 open GoZero.C15
 
@@ -357,6 +358,17 @@ theorem tie_kvUsers : GoZero.Extracted.C15.kvUsers = [
   "NewStore:dispatcher.AddWithWeight(cn, node.Weight)",
   "getRedis:cs.dispatcher.Get(key)"] := rfl
 
+/-- kv glue: EVERY method of clusterStore that dispatches does so with its `key` parameter, unchanged (64 call
+sites today; a new method is covered as soon as it exists), and `getRedis` hands that key to the ring and returns the
+ring's answer (`ErrNoRedisNode` when the ring says none) -/
+theorem tie_kvMethodsDispatchByKey :
+    (GoZero.Extracted.C15.kvDispatchArgs.all fun a => a == "key") = true ∧
+    GoZero.Extracted.C15.kvDispatchArgs.length ≥ 60 ∧
+    GoZero.Extracted.C15.kvGetRedisBody = [
+      "val, ok := cs.dispatcher.Get(key)",
+      "if !ok { return nil, ErrNoRedisNode }",
+      "return val.(*redis.Redis), nil"] := by decide
+
 /-- the repr of both node types is the redis address (`lang.Repr` calls `String()`) -/
 theorem tie_userReprs : GoZero.Extracted.C15.cacheNodeStringExprs = ["ret:return c.rds.Addr"] ∧
     GoZero.Extracted.C15.redisStringExprs = ["ret:return s.Addr"] := ⟨rfl, rfl⟩
@@ -369,6 +381,209 @@ theorem tie_totalWeightsShape : GoZero.Extracted.C15.totalWeightsShape = [
   "}",
   "}",
   "return"] := rfl
+
+/-! ### decision conditions on the property's path, LIFTED from the source into Lean functions (round 4)
+
+The extractor takes the condition / expression as it stands in the AST, replaces the non-integer leaves
+(`h.keys[i]` ↦ k, `hash` ↦ x, `len(h.keys)` ↦ n, the `sort.Search(…)` call ↦ idx, `repr(…)` ↦ an integer code of
+the string) and translates it (extract/translate.go).  The theorems below state, for ALL arguments, that the
+lifted function IS what the model computes: operator, operand order, constant. -/
+
+section Conditions
+open GoZero.Extracted.C15
+
+/-- `Get`: `sort.Search(len(h.keys), h.keys[i] >= hash)` is the model's `searchGE` … -/
+theorem tie_condGetSearch (keys : List Nat) (x : Nat) :
+    searchGE keys x = (keys.takeWhile fun (k : Nat) => condGetSearch (k : Int) (x : Int) == 0).length := by
+  have e : (fun (k : Nat) => condGetSearch (k : Int) (x : Int) == 0) = (fun k => decide (k < x)) := by
+    funext k
+    unfold condGetSearch
+    by_cases h : k < x
+    · have : ¬ ((k : Int) ≥ (x : Int)) := by omega
+      simp [h, this]
+    · have : ((k : Int) ≥ (x : Int)) := by omega
+      simp [h, this]
+  rw [e]
+  rfl
+
+/-- … `% len(h.keys)` is the model's wrap-around (`getRest`): index of the first virtual node ≥ the key's hash, the
+first one again beyond the last … -/
+theorem tie_exprGetWrap (keys : List Nat) (x : Nat) :
+    exprGetWrap ((keys.takeWhile fun (k : Nat) => condGetSearch (k : Int) (x : Int) == 0).length : Nat) (keys.length : Nat)
+      = ((searchGE keys x % keys.length : Nat) : Int) := by
+  rw [← tie_condGetSearch]
+  unfold exprGetWrap
+  rw [Int.tmod_eq_emod_of_nonneg (by omega)]
+  exact Int.ofNat_mod_ofNat _ _
+
+/-- … the test for the empty ring is `len(h.ring) == 0` (model: `s.ring.isEmpty`) … -/
+theorem tie_condGetEmpty (s : CH) : condGetEmpty (s.ring.length : Nat) = 1 ↔ s.ring.isEmpty = true := by
+  unfold condGetEmpty
+  cases s.ring <;> simp
+  omega
+
+/-- … and the position inside a collision bucket is `innerIndex % len(nodes)` (model: `H.inner … % b.length`). -/
+theorem tie_exprGetInner (hv n : Nat) : exprGetInner (hv : Int) (n : Int) = ((hv % n : Nat) : Int) := by
+  unfold exprGetInner
+  rw [Int.tmod_eq_emod_of_nonneg (by omega)]
+  exact Int.ofNat_mod_ofNat _ _
+
+/-- `Get` distinguishes the bucket sizes 0 (none), 1 (that node) and the rest (inner hash): model `getRest`'s match
+on `[]`, `[n]`, `_` -/
+theorem tie_getSwitch : getSwitchTag = "len(nodes)" ∧ getSwitchCases = [0, 1] ∧ getSwitchHasDefault = true :=
+  ⟨rfl, rfl, rfl⟩
+
+/-- `Remove`: the same lower-bound search … -/
+theorem tie_condRemoveSearch (k x : Int) : condRemoveSearch k x = condGetSearch k x := rfl
+
+/-- … `index < len(h.keys) && h.keys[index] == hash` is the model's `keys[i]? = some x` (`removeKey`) … -/
+theorem tie_condRemoveFound (keys : List Nat) (i x : Nat) :
+    condRemoveFound (i : Int) (keys.length : Nat) ((keys.getD i 0 : Nat) : Int) (x : Int) = 1 ↔ keys[i]? = some x := by
+  unfold condRemoveFound
+  by_cases h : i < keys.length
+  · have h1 : ((i : Int) < ((keys.length : Nat) : Int)) := by omega
+    simp only [List.getD_eq_getElem?_getD, List.getElem?_eq_getElem h, Option.getD_some, h1, decide_true, Bool.true_and,
+      Option.some.injEq]
+    by_cases e : keys[i] = x
+    · simp [e]
+    · have : ¬ ((keys[i] : Int) = (x : Int)) := by omega
+      simp [e, this]
+  · have h1 : ¬ ((i : Int) < ((keys.length : Nat) : Int)) := by omega
+    have h2 : keys[i]? = none := List.getElem?_eq_none (by omega)
+    simp [h1, h2]
+
+/-- … and the loops run `i = 0 … h.replicas-1` / `0 … replicas-1` (none for a non-positive count): the model's
+`List.range`. -/
+theorem tie_condRemoveLoop (i R : Nat) : condRemoveLoop (i : Int) (R : Int) = 1 ↔ i ∈ List.range R := by
+  unfold condRemoveLoop
+  by_cases h : i < R
+  · have : (i : Int) < (R : Int) := by omega
+    simp [h, this]
+  · have : ¬ (i : Int) < (R : Int) := by omega
+    simp [h, this]
+
+theorem tie_condAddLoop (i : Nat) (replicas : Int) : condAddLoop (i : Int) replicas = 1 ↔ i ∈ List.range replicas.toNat := by
+  unfold condAddLoop
+  by_cases h : (i : Int) < replicas
+  · have : i < replicas.toNat := by omega
+    simp [h, this]
+  · have : ¬ i < replicas.toNat := by omega
+    simp [h, this]
+
+/-- `removeRingNode` skips entries whose repr DIFFERS (a, b: any injective integer code of the two strings) … -/
+theorem tie_condRingNodeOther (a b : Int) : condRingNodeOther a b = 1 ↔ a ≠ b := by
+  unfold condRingNodeOther
+  by_cases h : a = b <;> simp [h]
+
+/-- … and keeps the bucket iff another entry remains (model: `setBucket` deletes the hash when the bucket becomes
+empty). -/
+theorem tie_condRingNodeKeep (b : List Node) (m : Node) :
+    condRingNodeKeep (((m :: b).length : Nat) : Int) = 1 ↔ b.isEmpty = false := by
+  unfold condRingNodeKeep
+  cases b <;> simp
+  omega
+
+/-- keys are sorted ascending (`<`) … -/
+theorem tie_condKeyLess (a b : Nat) : condKeyLess (a : Int) (b : Int) = 1 ↔ a < b := by
+  unfold condKeyLess
+  by_cases h : a < b
+  · have : (a : Int) < (b : Int) := by omega
+    simp [h, this]
+  · have : ¬ (a : Int) < (b : Int) := by omega
+    simp [h, this]
+
+/-- … and a node is inserted before the first entry whose repr is GREATER (model `insertNode`: `n.repr < m.repr`). -/
+theorem tie_condInsertBefore (existing new : Int) : condInsertBefore existing new = 1 ↔ new < existing := by
+  unfold condInsertBefore
+  by_cases h : new < existing
+  · have : existing > new := h
+    simp [h, this]
+  · have : ¬ existing > new := h
+    simp [h, this]
+
+/-- users: fatal without nodes or without a positive total weight; cache.New with exactly one node builds no ring;
+`TotalWeights` counts a negative weight as zero -/
+theorem tie_condUsers (n tw w : Int) :
+    (condCacheNoNode n tw = 1 ↔ n = 0 ∨ tw ≤ 0) ∧ (condKvNoNode n tw = 1 ↔ n = 0 ∨ tw ≤ 0) ∧
+    (condCacheSingle n = 1 ↔ n = 1) ∧ (condNegWeight w = 1 ↔ w < 0) := by
+  unfold condCacheNoNode condKvNoNode condCacheSingle condNegWeight
+  refine ⟨?_, ?_, ?_, ?_⟩
+  · by_cases h1 : n = 0 <;> by_cases h2 : tw ≤ 0 <;> simp [h1, h2]
+  · by_cases h1 : n = 0 <;> by_cases h2 : tw ≤ 0 <;> simp [h1, h2]
+  · by_cases h1 : n = 1 <;> simp [h1]
+  · by_cases h1 : w < 0 <;> simp [h1]
+
+end Conditions
+
+/-- the `nodes` set: add / test / delete of the repr (model: `nodes` list, `contains`, `erase`) -/
+theorem tie_nodeSetHelpers :
+    GoZero.Extracted.C15.addNodeBody = ["h.nodes[nodeRepr] = lang.Placeholder"] ∧
+    GoZero.Extracted.C15.containsNodeBody = ["_, ok := h.nodes[nodeRepr]", "return ok"] ∧
+    GoZero.Extracted.C15.removeNodeBody = ["delete(h.nodes, nodeRepr)"] := ⟨rfl, rfl, rfl⟩
+
+/-! ### core/lang/lang.go: the identity of nodes and keys (`repr(node)` is `lang.Repr(node)`, `tie_reprExprs`) -/
+
+/-- `Repr`: nil → ""; a Stringer is asked BEFORE pointers are dereferenced; pointers are followed while non-nil;
+the rest is `reprOfValue` (model: `reprOf`) -/
+theorem tie_langReprFlow : GoZero.Extracted.C15.langReprFlow = [
+  "if v == nil",
+  "  return \"\"",
+  "switch vt := v.(type)",
+  "  case fmt.Stringer",
+  "    return vt.String()",
+  "val := reflect.ValueOf(v)",
+  "for val.Kind() == reflect.Ptr && !val.IsNil()",
+  "  val = val.Elem()",
+  "return reprOfValue(val)"] := rfl
+
+/-- the switch is on the dynamic type of the dereferenced value -/
+theorem tie_reprSwitchHeader : GoZero.Extracted.C15.reprSwitchHeader = "vt := val.Interface().(type)" := rfl
+
+/-- the order of the INTERFACE cases (a value can be both): `error` before `fmt.Stringer`; all other cases are
+concrete types, of which a value has exactly one -/
+theorem tie_reprSwitchOrder : GoZero.Extracted.C15.reprSwitch.map (·.1) = [
+  "bool", "error", "float32", "float64", "fmt.Stringer", "int", "int8", "int16", "int32", "int64", "string",
+  "uint", "uint8", "uint16", "uint32", "uint64", "[]byte", "default"] := rfl
+
+/-- **SEMANTIC tie of `reprOfValue`**: the type switch as it stands in the source — for every case the function
+called, the conversion applied to the value (`int(vt)`, `uint64(vt)`: two's-complement wrap-around), the base,
+the float format / precision / bit size — INTERPRETED on every Go value that fits its type gives exactly the
+model's `reprOfValue`.  (A `FormatInt(int64(vt), 10)` in the `uint64` case gives "-1" for MaxUint64 and this
+theorem no longer holds.) -/
+theorem tie_reprSwitch_sem (v : GoVal) (hv : v.valid) (hn : v ≠ .nil) :
+    switchEval GoZero.Extracted.C15.reprSwitch v.deref = some (reprOfValue v.deref) := by
+  cases v with
+  | nil => exact absurd rfl hn
+  | int w x =>
+    have h64 := wrapSigned_id .w64 x (by have := inSigned_64 w x hv; simpa [inSigned, Width.half] using this)
+    cases w <;> simp [switchEval, GoZero.Extracted.C15.reprSwitch, GoVal.deref, GoVal.caseName, Width.suffix, evalCase,
+      evSigned, GoVal.math, convArg, reprOfValue, h64]
+  | uint w x =>
+    have h := inUnsigned_64 w x hv
+    have h64 := wrapUnsigned_id .w64 x (by simpa [inUnsigned, Width.full] using h)
+    cases w <;> simp [switchEval, GoZero.Extracted.C15.reprSwitch, GoVal.deref, GoVal.caseName, Width.suffix, evalCase,
+      evUnsigned, GoVal.math, convArg, reprOfValue, h64] <;> omega
+  | ptrInt x =>
+    simp [switchEval, GoZero.Extracted.C15.reprSwitch, GoVal.deref, GoVal.caseName, Width.suffix, evalCase, evSigned,
+      GoVal.math, convArg, reprOfValue]
+  | float s t => cases s <;> simp [switchEval, GoZero.Extracted.C15.reprSwitch, GoVal.deref, GoVal.caseName, evalCase,
+      evFloat, reprOfValue]
+  | _ => simp [switchEval, GoZero.Extracted.C15.reprSwitch, GoVal.deref, GoVal.caseName, evalCase, evString, evBool,
+      evError, evIdent, evBytes, reprOfValue, sprintDefault]
+
+/-- `lang.Repr` end to end: flow (pinned above) + interpreted switch = the model's `reprOf` -/
+theorem tie_langRepr_sem (v : GoVal) (hv : v.valid) :
+    reprOf v = (if v = .nil then "" else
+      match v.stringerText with
+      | some s => s
+      | none => (switchEval GoZero.Extracted.C15.reprSwitch v.deref).getD "?") := by
+  unfold reprOf
+  by_cases hn : v = .nil
+  · simp [hn]
+  · simp only [hn, if_false]
+    cases hs : v.stringerText with
+    | some s => rfl
+    | none => simp [tie_reprSwitch_sem v hv hn]
 
 /-- the default hash is murmur3 `Sum64` (Lean side: `Murmur.sum64`) -/
 theorem tie_hashExprs : GoZero.Extracted.C15.hashExprs = [
